@@ -510,7 +510,7 @@ func c11GenHooks(rng *Rng, crontabs []string) []c11Hook {
 }
 
 func runC11(r *Run) {
-	r.Rule = "part A: random histories (<= 30 ops) of scheduleManager.Add/Remove over 3 crontabs x 4 ids on a real manager (started or not; in 35% of the cases one crontab is a spec the cron library rejects), repeats and unknown pairs included; after every op every live cron registration's job is run and the crontab it sends is read back. part B: 1-4 generated hooks with 0-3 schedule bindings each over 3 crontabs, sharing crontabs, queues and groups, loaded by the real hook manager (--config); histories (<= 30 ops) of EnableScheduleBindings (the task from the main queue through taskHandler) / DisableScheduleBindings / direct schedule callback / injected ticks through the started ManagerEventsHandler into the real queues. thorough adds every Add/Remove history of length <= 5 over 2 crontabs x 2 ids. A case is non-trivial when (A) it contains a repeated add, a removal of an unknown pair and a removal that empties a crontab, or (B) two bindings share a crontab and some tick produced >= 2 tasks; distinct = distinct op-line sequences."
+	r.Rule = "part A: random histories (<= 30 ops) of scheduleManager.Add/Remove over 3 crontabs x 4 ids on a real manager (started or not; in 35% of the cases one crontab is a spec the cron library rejects), repeats and unknown pairs included; after every op every live cron registration's job is run and the crontab it sends is read back. part B: 1-4 generated hooks with 0-3 schedule bindings each over 3 crontabs, sharing crontabs, queues and groups, loaded by the real hook manager (--config); histories (<= 30 ops) of EnableScheduleBindings (the task from the main queue through taskHandler) / DisableScheduleBindings / direct schedule callback / injected ticks through the started ManagerEventsHandler into the real queues. thorough adds every Add/Remove history of length <= 5 over 2 crontabs x 2 ids and every enable/disable history of length <= 4 over two hooks that share a crontab and a queue (a tick of each crontab after every op). A case is non-trivial when (A) it contains a repeated add, a removal of an unknown pair and a removal that empties a crontab, or (B) two bindings share a crontab and some tick produced >= 2 tasks; distinct = distinct op-line sequences."
 	// corpus: the asymmetries of Add/Remove read off the code
 	r.One(0, func(c *Case, _ *Rng) {
 		c.Desc = "corpus: same id added twice then removed once; unknown pair; invalid crontab between valid ones"
@@ -679,6 +679,54 @@ func runC11(r *Run) {
 		gen(nil, 5)
 		r.Exhaust = true
 		r.Extra["exhaustive_scope"] = fmt.Sprintf("all %d Add/Remove histories of length 1..5 over 2 crontabs x 2 ids (unstarted cron)", len(hist))
+		// every enable/disable history of length <= 4 over two hooks sharing a crontab and a queue; after
+		// every op one injected tick of each crontab
+		sysAlpha := []string{"e1", "e2", "d1", "d2"}
+		var sysHist [][]string
+		var genS func(cur []string, d int)
+		genS = func(cur []string, d int) {
+			if len(cur) > 0 {
+				sysHist = append(sysHist, append([]string{}, cur...))
+			}
+			if d == 0 {
+				return
+			}
+			for _, a := range sysAlpha {
+				genS(append(cur, a), d-1)
+			}
+		}
+		genS(nil, 4)
+		r.Extra["exhaustive_scope_B"] = fmt.Sprintf("all %d enable/disable histories of length 1..4 over 2 hooks (3 schedule bindings, shared crontab and queue), a tick of both crontabs after every op", len(sysHist))
+		r.Cases(2000000, len(sysHist), 0, func(c *Case, _ *Rng) {
+			cts := []string{c11Valid[0], c11Valid[1], c11Valid[2]}
+			hooks := []c11Hook{
+				{file: "hook1.sh", kubes: []c11Kube{{name: "k1", group: "g1"}}, scheds: []c11Sched{
+					{name: "s1", crontab: cts[0], queue: "q1", group: "g1", includes: []string{"k1"}}, {crontab: cts[1]}}},
+				{file: "hook2.sh", scheds: []c11Sched{{name: "s1", crontab: cts[0], queue: "q1", allowFailure: true}}},
+			}
+			s, err := newC11Sys(r, c, hooks, cts)
+			if err != "" {
+				c.Op("setup", err)
+				return
+			}
+			defer s.close()
+			for _, o := range sysHist[c.Idx-2000000] {
+				h := int(o[1] - '0')
+				if o[0] == 'e' {
+					s.enable(h)
+				} else {
+					s.disable(h)
+				}
+				s.tick(1)
+				s.tick(2)
+				if c.Inconcl != "" {
+					return
+				}
+			}
+			c.Nontrivial = len(sysHist[c.Idx-2000000]) >= 2
+			c.Note("B:exhaustive")
+			c.Desc = "B exhaustive " + strings.Join(sysHist[c.Idx-2000000], ",")
+		})
 		r.Cases(1000000, len(hist), 0, func(c *Case, _ *Rng) {
 			hs := hist[c.Idx-1000000]
 			m := newC11Sm(c, []string{c11Valid[0], c11Valid[1]}, false)
